@@ -71,6 +71,7 @@ type c20 struct {
 }
 
 func runC20(c *an.Ctx) {
+	c20freshNodes(c)
 	p := c.P
 	r := &c20{c: c, p: p, nodeIf: p.Iface("", "Node"), nullable: map[string]string{}}
 	if r.nodeIf == nil {
@@ -219,7 +220,58 @@ func runC20(c *an.Ctx) {
 	c.Expect("C20.cases", "exported node types requiring a case", nExported, 28)
 
 	// ---- C20.walk
+	// rootVisit: the call hands t.Root to the visitor — Visitor.Visit(ctx, t.Root), or visitNode(t.Root) on a context
+	// built around Walk's own visitor (visitNode being the helper that shows a node to the visitor)
+	visitNodeShows := false
+	if vn := p.Fn("utils.(VisitorContext).visitNode"); vn != nil && vn.Body != nil {
+		for _, call := range p.CallsIn(vn, "(utils.Visitor).Visit") {
+			if len(call.Args) == 2 {
+				if id, ok := an.Unparen(call.Args[1]).(*ast.Ident); ok && isParam(vn, vn.Info(), id) {
+					visitNodeShows = true
+				}
+			}
+		}
+	}
+	rootVisit := func(call *ast.CallExpr) bool {
+		switch an.CalleeName(uinfo, call) {
+		case "(utils.Visitor).Visit":
+			return len(call.Args) == 2 && p.FieldKey(uinfo, call.Args[1]) == "Template.Root"
+		case "(utils.VisitorContext).visitNode":
+			if !visitNodeShows || len(call.Args) != 1 || p.FieldKey(uinfo, call.Args[0]) != "Template.Root" {
+				return false
+			}
+			// the receiver: VisitorContext{Visitor: <Walk's visitor parameter>} (directly or through a local)
+			recv := an.Unparen(an.Receiver(call))
+			if id, ok := recv.(*ast.Ident); ok {
+				if defs := an.LocalDefs(walk, an.ObjOf(uinfo, id)); len(defs) == 1 && defs[0] != nil {
+					recv = an.Unparen(defs[0])
+				}
+			}
+			cl, ok := recv.(*ast.CompositeLit)
+			if !ok {
+				return false
+			}
+			for _, el := range cl.Elts {
+				if kv, ok := el.(*ast.KeyValueExpr); ok {
+					if k, ok := kv.Key.(*ast.Ident); ok && k.Name == "Visitor" {
+						if id, ok := an.Unparen(kv.Value).(*ast.Ident); ok && isParam(walk, uinfo, id) {
+							return true
+						}
+					}
+				}
+			}
+		}
+		return false
+	}
 	okWalk := false
+	an.InspectOwn(walk, func(n ast.Node) bool {
+		if call, ok := n.(*ast.CallExpr); ok && rootVisit(call) {
+			if id := an.RootIdent(call.Args[len(call.Args)-1]); id != nil && isParam(walk, uinfo, id) {
+				okWalk = true
+			}
+		}
+		return true
+	})
 	an.InspectOwn(walk, func(n ast.Node) bool {
 		call, ok := n.(*ast.CallExpr)
 		if !ok {
@@ -239,7 +291,7 @@ func runC20(c *an.Ctx) {
 	{
 		wx := p.NewExplorer(walk, an.Hooks{Call: func(x *an.Explorer, call *ast.CallExpr, st *an.State) {
 			name := an.CalleeName(uinfo, call)
-			if name == "(utils.Visitor).Visit" && len(call.Args) == 2 && p.FieldKey(uinfo, call.Args[1]) == "Template.Root" {
+			if rootVisit(call) {
 				st.Set("visited", "1")
 				return
 			}
@@ -659,6 +711,24 @@ func (r *c20) checkCase(named *types.Named, cc *ast.CaseClause) {
 			c.OK("C20.fields", name+"/leaf", cc.Pos(), "leaf type without child positions")
 		}
 		return
+	}
+	// the case may do the helper's work itself (a one-statement helper inlined into the switch): then the case body
+	// is the helper and the variable the type switch binds is its parameter
+	if iv, ok := uinfo.Implicits[cc].(*types.Var); ok {
+		delegates := false
+		if len(cc.Body) == 1 && len(helperCall.Args) == 1 {
+			if es, ok := cc.Body[0].(*ast.ExprStmt); ok && an.Unparen(es.X) == ast.Expr(helperCall) {
+				if id, ok := an.Unparen(helperCall.Args[0]).(*ast.Ident); ok && an.ObjOf(uinfo, id) == types.Object(iv) {
+					delegates = true
+				}
+			}
+		}
+		if !delegates {
+			body := &ast.BlockStmt{Lbrace: cc.Colon, List: cc.Body, Rbrace: cc.End()}
+			helper = &an.Fn{P: p, Name: "utils.(VisitorContext).Visit/case *jet." + name, Pkg: p.Utils, Body: body,
+				Lit: &ast.FuncLit{Type: &ast.FuncType{Func: cc.Pos()}, Body: body},
+				Sig: types.NewSignatureType(nil, nil, nil, types.NewTuple(iv), nil, false)}
+		}
 	}
 	c.FnsAnalysed[helper.Name] = true
 	if len(helperCall.Args) != 1 {
